@@ -67,6 +67,8 @@ def check(run, ctx):
             api = hit[0][4:] if hit[0].startswith("new:") else hit[0]
             if api in ("builtins.int", "builtins.float") and (not call.args or isinstance(call.args[0], ast.Constant)):
                 continue
+            if api in ("builtins.int", "builtins.float") and str(s["argtypes"].get(0, "")).replace("builtins.", "") in ("int", "float", "bool"):
+                continue  # numeric argument: cannot raise ValueError
             sym = f"{fq.replace('src.', '', 1)}:{norm(call)[:60]}"
             loc = f"{f.module.rel}:{call.lineno}"
             if is_caught(f.node, call, "ValueError"):
